@@ -185,7 +185,7 @@ theorem lookupEntry_vt {C : Ctx} {r : Req} {e : Str} {post : List Str} (he : isV
       | some v => lookupVT C r e post v := by
   have h3 : (e = kVersion ∨ e = kVersionBang) ∨ e = kVersionExpr := by
     simpa [isVT] using he
-  have hp : hasInfix e kPath = false := by
+  have hp : (e == kPath) = false := by
     rcases h3 with (rfl | rfl) | rfl <;> decide
   have hk : (e == kKeep) = false := by
     rcases h3 with (rfl | rfl) | rfl <;> decide
@@ -880,7 +880,10 @@ theorem lookupEntry_plainTag {C : Ctx} {r : Req} {e : Str} (post : List Str) (ht
            | some p => .hit p e
            | none => .skip) := by
   simp only [isPlainTag, Bool.and_eq_true, Bool.not_eq_true', bne_iff_ne, ne_eq] at ht
-  obtain ⟨⟨⟨⟨⟨h1, h2⟩, h3⟩, h4⟩, h5⟩, h6⟩ := ht
+  obtain ⟨⟨⟨⟨h1, h2⟩, h3⟩, h5⟩, h6⟩ := ht
+  have h4 : (e == kPath) = false := by
+    apply Bool.eq_false_iff.mpr; intro h; have : e = kPath := by simpa using h
+    subst this; revert h3; decide
   have hk : (e == kKeep) = false := by
     apply Bool.eq_false_iff.mpr; intro h; have : e = kKeep := by simpa using h
     subst this; revert h3; decide
